@@ -81,13 +81,41 @@ def _stores(node):
     return {n.id for n in ast.walk(node) if isinstance(n, ast.Name) and isinstance(n.ctx, ast.Store)}
 
 
+def _walrus_defs(expr):
+    """names bound by `(name := ...)` sub-expressions that are evaluated whenever `expr` is (not behind and/or, a conditional
+    expression, a comprehension or a lambda)"""
+    out = set()
+
+    def go(e):
+        if isinstance(e, ast.NamedExpr):
+            go(e.value)
+            if isinstance(e.target, ast.Name):
+                out.add(e.target.id)
+            return
+        if isinstance(e, ast.BoolOp):
+            go(e.values[0])
+            return
+        if isinstance(e, ast.IfExp):
+            go(e.test)
+            return
+        if isinstance(e, (ast.Lambda, ast.ListComp, ast.SetComp, ast.DictComp, ast.GeneratorExp)):
+            return
+        for c in ast.iter_child_nodes(e):
+            if isinstance(c, ast.expr):
+                go(c)
+    if expr is not None:
+        go(expr)
+    return out
+
+
 def _exposed(stmts, defd):
     """Names read while not definitely assigned (definite-assignment analysis over the structured statements);
     `defd` is updated to the names definitely assigned after the statements."""
     exp = set()
     for s in stmts:
         if isinstance(s, ast.Assign):
-            exp |= _reads(s.value) - defd
+            exp |= _reads(s.value) - defd - _walrus_defs(s.value)
+            defd |= _walrus_defs(s.value)
             for t in s.targets:
                 if not isinstance(t, (ast.Name, ast.Tuple, ast.List)):
                     exp |= _reads(t) - defd
@@ -102,7 +130,8 @@ def _exposed(stmts, defd):
             else:
                 exp |= _reads(s.target) - defd
         elif isinstance(s, ast.If):
-            exp |= _reads(s.test) - defd
+            exp |= _reads(s.test) - defd - _walrus_defs(s.test)
+            defd |= _walrus_defs(s.test)
             d1, d2 = set(defd), set(defd)
             exp |= _exposed(s.body, d1)
             exp |= _exposed(s.orelse, d2)
@@ -112,7 +141,8 @@ def _exposed(stmts, defd):
             d = set(defd) | _stores(s.target)
             exp |= _exposed(s.body + s.orelse, d)
         elif isinstance(s, ast.While):
-            exp |= _reads(s.test) - defd
+            exp |= _reads(s.test) - defd - _walrus_defs(s.test)
+            defd |= _walrus_defs(s.test)
             exp |= _exposed(s.body + s.orelse, set(defd))
         else:
             exp |= _reads(s) - defd
@@ -411,6 +441,34 @@ def _leadrun(r):
     return None
 
 
+def _const_leaf_chain(t, _n=0):
+    if T.tag(t) == 'phi':
+        return _n < 80 and _const_leaf_chain(t[2], _n + 1) and _const_leaf_chain(t[3], _n + 1)
+    return T.is_const(t) and isinstance(t[1], (int, str, bytes, bool, type(None)))
+
+
+def _lift_compare(opname, tree, k, tree_left):
+    if T.tag(tree) != 'phi':
+        try:
+            a, b = (tree[1], k[1]) if tree_left else (k[1], tree[1])
+            return T.const(a < b if opname == 'LT' else a == b)
+        except TypeError:
+            return T.raw_op(opname, tree, k) if tree_left else T.raw_op(opname, k, tree)
+    c = tree[1]
+    ta, tb = _lift_compare(opname, tree[2], k, tree_left), _lift_compare(opname, tree[3], k, tree_left)
+    if ta == tb:
+        return ta
+    if ta == T.TRUE:
+        return T.or_(c, tb)
+    if ta == T.FALSE:
+        return T.and_(T.not_(c), tb)
+    if tb == T.TRUE:
+        return T.or_(T.not_(c), ta)
+    if tb == T.FALSE:
+        return T.and_(c, ta)
+    return T.phi(c, ta, tb)
+
+
 def canon(t, _memo=None):
     """idiom-level canonical form applied to both sides before comparing"""
     memo = {} if _memo is None else _memo
@@ -454,6 +512,16 @@ def canon(t, _memo=None):
                 if r[2][1].index(ch) == i_:
                     out = T.phi(T.eq(r[3], T.const(ch)), T.const(i_), out)
             r = out
+        # a comparison of a case analysis with constant outcomes (the position of a character in an alphabet) against a
+        # constant is the disjunction of the cases in which it holds: `ALPHABET.find(c) < 0` is "c is none of the letters"
+        if isinstance(r, tuple) and T.is_op(r) and r[1] in ('LT', 'EQ') and len(r) == 4:
+            for pi, ki in ((2, 3), (3, 2)):
+                if T.tag(r[pi]) == 'phi' and T.is_const(r[ki]) and _const_leaf_chain(r[pi]):
+                    r = _lift_compare(r[1], r[pi], r[ki], pi == 2)
+                    break
+        if isinstance(r, tuple) and T.is_op(r, 'NOT') and len(r) == 3 and (T.is_op(r[2], 'AND') or T.is_op(r[2], 'OR') or T.is_op(r[2], 'NOT')
+                                                                         or T.is_const(r[2])):
+            r = T.not_(r[2])          # De Morgan through the smart constructor: NOT(AND(NOT a, NOT b)) is OR(a, b)
         # quantifiers over a comprehension: one canonical spelling (ALL), so that `None in [TABLE.get(x) for x in s]`,
         # `any(x not in SET for x in s)` and `not all(x in SET for x in s)` are the same condition
         if r[1] == 'IN' and len(r) == 4 and r[2] == T.NONE and T.is_op(r[3], 'MAP') and r[3][5] == T.TRUE:
